@@ -1242,6 +1242,10 @@ pub(crate) fn verif_set_grow_budget(budget: Option<usize>) {
 
 #[cfg(feature = "verif")]
 fn verif_take_grow_permit() -> bool {
+    if !verif_grow_fault_permit() {
+        return false;
+    }
+
     VERIF_GROW_BUDGET.with(|c| match c.get() {
         None => true,
         Some(0) => false,
@@ -1249,6 +1253,43 @@ fn verif_take_grow_permit() -> bool {
             c.set(Some(n - 1));
             true
         }
+    })
+}
+
+// Fault plan for whole-machine runs (property C30): independent of the budget above.
+// (attempts seen, attempts denied, 1-based index of the first attempt to deny or 0, persistent)
+#[cfg(feature = "verif")]
+thread_local! {
+    static VERIF_GROW_FAULT: std::cell::Cell<(usize, usize, usize, bool)> =
+        const { std::cell::Cell::new((0, 0, 0, false)) };
+}
+
+/// Resets the grow counters of this thread and plans a fault: the `k`-th `InnerHeap::grow` call
+/// from now on is denied (`k == 0`: none, the calls are only counted); with `persistent` every
+/// later call is denied as well (an exhausted allocator), otherwise only that one (a transient
+/// failure).
+#[cfg(feature = "verif")]
+pub(crate) fn verif_set_grow_fault(k: usize, persistent: bool) {
+    VERIF_GROW_FAULT.with(|c| c.set((0, 0, k, persistent)));
+}
+
+/// `(grow calls seen, grow calls denied)` since the last `verif_set_grow_fault`.
+#[cfg(feature = "verif")]
+pub(crate) fn verif_grow_fault_stats() -> (usize, usize) {
+    VERIF_GROW_FAULT.with(|c| {
+        let (seen, denied, _, _) = c.get();
+        (seen, denied)
+    })
+}
+
+#[cfg(feature = "verif")]
+fn verif_grow_fault_permit() -> bool {
+    VERIF_GROW_FAULT.with(|c| {
+        let (seen, denied, k, persistent) = c.get();
+        let seen = seen + 1;
+        let deny = k != 0 && (seen == k || (persistent && seen > k));
+        c.set((seen, denied + deny as usize, k, persistent));
+        !deny
     })
 }
 
